@@ -57,6 +57,13 @@ def base_file(fmt, variant):
             data = M.enc_max(bits, cols, rows)
             args = ["-w", "16", "-i"]
             ctrl = [0, 1, 2, 3, 4]
+        elif variant in ("rows", "rows-more", "rows-ignore"):
+            # the height given on the command line (the file's own, more than the file holds, with header errors ignored)
+            cols, rows = 16, 6
+            bits = M.rand_pixels(rng, cols, rows, "random", 2)
+            data = M.enc_max(bits, cols, rows)
+            args = {"rows": ["-w", "16", "-r", "6"], "rows-more": ["-w", "16", "-r", "9", "-rb"], "rows-ignore": ["-w", "16", "-r", "6", "-i"]}[variant]
+            ctrl = [0, 1, 2, 3, 4]
         else:
             data = M.enc_max(bits, cols, rows)
             args = ["-w", "16"] + (["-br2"] if variant == "br2" else [])
@@ -97,7 +104,7 @@ def base_file(fmt, variant):
 
 
 VARIANTS = {
-    "hrs": ["small", "odd", "odd-wide", "one", "default"], "pix": ["small"], "max": ["hdr5", "br2", "newsroom", "ignore", "odd-bytes"], "mge": ["rle", "raw", "cmp"],
+    "hrs": ["small", "odd", "odd-wide", "one", "default"], "pix": ["small"], "max": ["hdr5", "br2", "newsroom", "ignore", "odd-bytes", "rows", "rows-more", "rows-ignore"], "mge": ["rle", "raw", "cmp"],
     "rat": ["flat", "rows"], "cm3": ["one-coded", "one-raw", "two-coded-nopat", "two-raw"],
     "vef": ["t0s", "t0r", "t1s", "t1r", "t3s", "t3r"],
 }
